@@ -19,7 +19,7 @@ OBLIGATIONS = ['PGA.C08.' + t for t in [
     'C08_tab_ops', 'C08_tab_bondwords', 'C08_tab_cn', 'C08_words_as_reference',
     'C08_matches_iff_partial', 'C08_matches_nodup', 'C08_matches_iff_full_fails',
     'C08_cap_inactive', 'C08_capped_iff_partial', 'C08_truncated_sound',
-    'C08_read_wf', 'C08_alpha_read', 'C08_alpha_matches', 'C08_labels_irrelevant']]
+    'C08_read_wf', 'C08_alpha_read_partial', 'C08_alpha_matches_partial', 'C08_labels_irrelevant']]
 RULE = ('cases = (fragment, molecule) pairs. Fragments: bounded-exhaustive one- and two-atom fragments (every symbol '
         'class x suffix, x prefix, every legal molecule-prefix combination, every constraint form x negation x operator '
         'x number, every bond word) plus random grammar-directed fragments of 1..8 atoms with random layout and label '
@@ -366,7 +366,8 @@ def run_model(ctx, requests, fcs):
                     ctx.disagree('corr:c08.read', {'text': fc.text}, impl_s, rs)
             else:
                 mcls = rs.get('err')
-                if mcls != fc.read and not (mcls is not None and fc.lenient):
+                icls = 'internal' if fc.read.startswith('internal:') else fc.read
+                if mcls != icls and not (mcls is not None and fc.lenient):
                     ctx.disagree('corr:c08.read', {'text': fc.text}, fc.read, rs)
         for (fc, ent, impl, raw), r in zip(meta, rep['res']):
             ctx.count('corr_c08.match')
@@ -406,6 +407,10 @@ def make_case(ctx, frag, origin, layout=True):
 def check_read(ctx, fc):
     """the fragment-level clause: a fragment the grammar and the property give a meaning to must be read"""
     if fc.read != fc.expected_read:
+        if fc.expected_read == 'ok' and fc.read == 'internal:TypeError' and atomlabel_class(fc.frag):
+            ctx.violation('a well-formed fragment is not read (TypeError)', {'text': fc.text, 'fragment': fc.frag},
+                          expected='ok', observed=fc.read, finding='FM2')
+            return False
         if fc.read == 'ok':
             ctx.violation('a fragment naming an unknown element or label is accepted', {'text': fc.text, 'fragment': fc.frag},
                           expected=fc.expected_read, observed=fc.read)
@@ -414,6 +419,18 @@ def check_read(ctx, fc):
                           expected=fc.expected_read, observed=fc.read)
         return False
     return True
+
+
+def atomlabel_class(frag):
+    """FM2's input class: an atom labelled `AtomLabel` is declared before another bonded atom"""
+    seen = False
+    for it in frag['items']:
+        if it[0] == 'atom':
+            if seen and it[1]['bond']:
+                return True
+            if it[1]['label'] == 'AtomLabel':
+                seen = True
+    return False
 
 
 def pick_mols(ctx, pool, fc, k):
@@ -479,6 +496,8 @@ def run(ctx):
     if pool.bad_graph:
         raise common.MachineryError('assumption A-graph failed: %r' % (pool.bad_graph[:3],))
     lower_ok = lowercase_supported()
+    fm2_present = impl_read('fragment a{C labeled AtomLabel C labeled x single bond to AtomLabel}')[1] == 'internal:TypeError'
+    ctx.count('label_AtomLabel_' + ('generated_FM2_present' if fm2_present else 'not_generated_guard_removed'))
     ctx.count('lowercase_symbols_' + ('generated' if lower_ok else 'excluded_F22_pending'))
     fcs, requests = [], []
     # 1. bounded-exhaustive small fragments x sampled molecules
@@ -499,14 +518,21 @@ def run(ctx):
         if ctx.time_left() < 120:
             ctx.count('stopped_early_time')
             break
-        frag = RG.stereo_fragment(rng) if i % 25 == 0 else RG.rand_fragment(rng, lower_ok=lower_ok)
+        if i % 25 == 0:
+            frag = RG.stereo_fragment(rng)
+        elif i % 40 == 7:
+            frag = RG.dup_label_fragment(rng)
+        elif i % 200 == 9 and fm2_present:
+            frag = RG.atomlabel_fragment(rng)
+        else:
+            frag = RG.rand_fragment(rng, lower_ok=lower_ok)
         fc = make_case(ctx, frag, 'random')
         fcs.append(fc)
         if not check_read(ctx, fc) or fc.read != 'ok':
             continue
         ents, res = run_fragment(ctx, pool, fc, per_rand, requests, extra_tries=6)
         # 3. layout / label independence on the implementation itself (relational clause of the property)
-        if i % 4 == 0:
+        if i % 4 == 0 and 'AtomLabel' not in RG.labels_of(frag):
             g2 = RG.relabel(frag, rng)
             t2 = RG.render(g2, rng)
             q2, r2 = impl_read(t2)
